@@ -419,8 +419,15 @@ impl<'a> Worker<'a> {
             // nothing was injected: the run must be the golden run again (determinism self-check)
             self.stats.recheck.0 += 1;
             if Tuple::of(&o) != Tuple::of(&g[k]) {
+                // once more, before believing it
+                let o2 = self.run_step_after_golden(case, &g, k);
+                if Tuple::of(&o2) == Tuple::of(&g[k]) {
+                    self.stats.probe(&format!("recheck:transient-mismatch(exit={:?},signal={:?})", o.exit, o.signal));
+                    return v;
+                }
                 self.stats.recheck.1 += 1;
-                self.harness_errors.push(format!("nondeterministic replay of golden step: {} plan={}", case.name, case.steps[k].plan));
+                let d = Tuple::of(&g[k]).first_diff(&Tuple::of(&o));
+                self.harness_errors.push(format!("nondeterministic replay of golden step: {} plan={} exit={:?} events={} golden_events={} first_diff={:?} stderr={}", case.name, case.steps[k].plan, o.exit, o.events.len(), g[k].events.len(), d, short(&o.stderr, 200)));
             }
             return v;
         }
@@ -504,6 +511,8 @@ pub fn apply_variant(base: &Case, v: &Variant) -> Case {
 pub struct FaultSpace {
     pub read_side: bool,
     pub write_side: bool,
+    pub budgets: Budgets,
+    pub seed: u64,
 }
 
 pub fn enumerate_faults(step_idx: usize, golden: &Outcome, space: &FaultSpace) -> Vec<Variant> {
@@ -544,11 +553,56 @@ pub fn enumerate_faults(step_idx: usize, golden: &Outcome, space: &FaultSpace) -
         }
     }
     if space.write_side {
-        for n in 0..total_written {
+        for n in disk_full_budgets(golden, space.budgets, space.seed) {
             out.push(Variant { corrupt: None, plan: Some((step_idx, format!("full={}", n))), tag: format!("full={}", n) });
         }
     }
+    let _ = total_written;
     out
+}
+
+#[derive(Clone, Copy, PartialEq, Debug)]
+pub enum Budgets {
+    /// every byte budget 0..total
+    Complete,
+    /// budgets on and around the boundaries of every write call (start, start+1, middle, end-1) —
+    /// one representative per distinct "how far did this write get" behaviour
+    Boundaries,
+    /// boundaries plus a seed-rotated stride of about n further budgets
+    BoundariesPlus(usize),
+}
+
+/// "disk full after N bytes" budgets for a step, derived from the write events of its fault-free run.
+pub fn disk_full_budgets(golden: &Outcome, mode: Budgets, seed: u64) -> Vec<i64> {
+    let mut set: BTreeSet<i64> = BTreeSet::new();
+    let mut c: i64 = 0;
+    for e in &golden.events {
+        if e.op == "write" && e.ret > 0 {
+            let s = e.ret;
+            for b in [c, c + 1, c + s / 2, c + s - 1] {
+                if b < c + s {
+                    set.insert(b);
+                }
+            }
+            c += s;
+        }
+    }
+    let total = c;
+    match mode {
+        Budgets::Complete => (0..total).collect(),
+        Budgets::Boundaries => set.into_iter().collect(),
+        Budgets::BoundariesPlus(n) => {
+            if n > 0 && total > 0 {
+                let stride = ((total as usize + n - 1) / n).max(1) as i64;
+                let mut b = (seed % stride as u64) as i64;
+                while b < total {
+                    set.insert(b);
+                    b += stride;
+                }
+            }
+            set.into_iter().collect()
+        }
+    }
 }
 
 fn golden_is_write_fd(golden: &Outcome, e: &crate::sandbox::Event) -> bool {
@@ -589,4 +643,81 @@ pub fn group_hash_map<K: std::hash::Hash + Eq, V>(items: impl Iterator<Item = (K
         m.entry(k).or_default().push(v);
     }
     m
+}
+
+// ---------------------------------------------------------------------------------------------
+// Fault campaigns: (scenario, step) x single-fault space, judged by the fail-stop oracle.
+
+pub struct FaultJob {
+    pub base: Case,
+    pub step: usize,
+    pub space: FaultSpace,
+    pub noise: bool,
+    /// keep at most this many variants (seed-rotated thinning); 0 = all
+    pub max_variants: usize,
+}
+
+pub struct CampaignResult {
+    pub stats: Stats,
+    pub findings: Vec<Finding>,
+    pub harness_errors: Vec<String>,
+    pub variants: usize,
+    pub skipped_jobs: usize,
+    pub samples: Vec<serde_json::Value>,
+}
+
+pub fn run_fault_campaign(ctx: &Ctx, jobs: &[FaultJob]) -> CampaignResult {
+    // phase A: fault-free dry runs -> variant lists
+    let (lists, mut stats, mut findings, mut herr) = par_map(ctx, jobs, |w, _, job| {
+        let mut base = job.base.clone();
+        base.oracle = "failstop".into();
+        let g = w.golden(&base);
+        if g.len() <= job.step || !g[job.step].ok() {
+            w.stats.probe("skip:golden-step-not-successful");
+            return None;
+        }
+        let mut vs = enumerate_faults(job.step, &g[job.step], &job.space);
+        if job.noise {
+            vs.extend(noise_variants(job.step, job.space.read_side, job.space.write_side));
+        }
+        if job.max_variants > 0 {
+            vs = thin(&vs, job.max_variants, job.space.seed);
+        }
+        Some(vs)
+    });
+    let mut items: Vec<(usize, Vec<Variant>)> = vec![];
+    let mut skipped = 0;
+    let mut nvar = 0;
+    for (ji, l) in lists.into_iter().enumerate() {
+        match l {
+            None => skipped += 1,
+            Some(vs) => {
+                nvar += vs.len();
+                for ch in vs.chunks(40) {
+                    items.push((ji, ch.to_vec()));
+                }
+            }
+        }
+    }
+    let samples: Vec<serde_json::Value> = items
+        .iter()
+        .step_by((items.len() / 3).max(1))
+        .take(3)
+        .map(|(ji, vs)| serde_json::json!({"scenario": jobs[*ji].base.name, "step": jobs[*ji].base.steps[jobs[*ji].step].argv.join(" "), "fault_plans": vs.iter().take(6).map(|v| v.plan.as_ref().map(|p| p.1.clone()).unwrap_or_default()).collect::<Vec<_>>()}))
+        .collect();
+    // phase B: judge every variant
+    let (_r, st2, f2, h2) = par_map(ctx, &items, |w, _, (ji, vs)| {
+        let job = &jobs[*ji];
+        let mut base = job.base.clone();
+        base.oracle = "failstop".into();
+        base.meta["step"] = serde_json::json!(job.step);
+        for v in vs {
+            let case = apply_variant(&base, v);
+            w.judge(&case);
+        }
+    });
+    stats.merge(st2);
+    findings.extend(f2);
+    herr.extend(h2);
+    CampaignResult { stats, findings, harness_errors: herr, variants: nvar, skipped_jobs: skipped, samples }
 }
